@@ -417,7 +417,10 @@ def deep_machines(tier):
              seeds=('fresh', 'used', 'swapped', 'warm'))
     b3 = dict(names=('x', 'y', 'z'), max_handles=2, max_ext=1, ops=('and', 'xor', 'implies'),
               with_foa=False, with_ite=False, seeds=('fresh', 'used', 'warm'))
-    pl = [('ops2', a, 3), ('ops3', b3, 4)] if tier == 'quick' else [('ops2', a, 4), ('ops3', b3, 6)]
+    narrow = dict(names=('x', 'y'), max_handles=2, max_ext=1, ops=('and', 'xor', 'implies'),
+                  with_foa=False, with_ite=False, seeds=('fresh', 'used', 'warm'))
+    pl = [('ops2', a, 3), ('ops3', b3, 4)] if tier == 'quick' else [
+        ('ops2', a, 3), ('ops2-narrow', narrow, 6), ('ops3', b3, 5)]
     out = []
     for label, kw, depth in pl:
         kw = dict(kw)
